@@ -188,6 +188,11 @@ def history_search(ctx):
         path = os.path.join(tmp, 'xdverif_c11_mod.py')
         open(path, 'w').write(MODULE)
         pristine = copy.deepcopy(directive.DEFAULT_RUNTIME_STATE)
+        # the usual situation: the directory of the tested module is itself on sys.path (a project run from its checkout), in
+        # front of other entries; what a later doctest can import must not depend on the doctests run before it
+        path_before = list(sys.path)
+        sys.path.insert(0, tmp)
+        path_pristine = list(sys.path)
         def collect():
             with warnings.catch_warnings():
                 warnings.simplefilter('ignore')
@@ -229,6 +234,10 @@ def history_search(ctx):
                     problem = 'directive.DEFAULT_RUNTIME_STATE changed after running %r: %r' % (hist[:pos + 1], directive.DEFAULT_RUNTIME_STATE)
                     directive.DEFAULT_RUNTIME_STATE.clear()
                     directive.DEFAULT_RUNTIME_STATE.update(copy.deepcopy(pristine))
+                if sys.path != path_pristine:
+                    problem = 'sys.path (the module directory is its first entry) changed after running %r: now %r' % (
+                        hist[:pos + 1], [('<module dir>' if e == tmp else e) for e in sys.path][:4] + ['...'] + [('<module dir>' if e == tmp else e) for e in sys.path][-2:])
+                    sys.path[:] = path_pristine
                 mod = sys.modules.get('xdverif_c11_mod')
                 if mod is not None:
                     snap = (mod.GLOBAL_X, mod.helper(), sorted(k for k in vars(mod) if not k.startswith('__')))
@@ -248,6 +257,8 @@ def history_search(ctx):
     finally:
         shutil.rmtree(tmp, ignore_errors=True)
         sys.modules.pop('xdverif_c11_mod', None)
+        if 'path_before' in locals():
+            sys.path[:] = path_before
 
 
 # ---------------------------------------------------------------------------
